@@ -147,14 +147,16 @@ def rule_json(ctx):
             """every alternative of t is the entry `key` of the dict, possibly reshaped / converted (np.reshape, np.asarray, np.array)"""
             if t is None:
                 return False
+            conv = ('np.reshape', 'np.asarray', 'np.asanyarray', 'np.array', 'np.ma.asarray', 'np.ma.asanyarray')
             for alt in T.value_alts(t):
                 x = alt
-                while x[0] == 'call' and (T.dotted(x[1]) or '') in ('np.reshape', 'np.asarray', 'np.array') and x[2]:
-                    x = x[2][0]
-                while x[0] == 'call' and T.call_name(x) == 'reshape' and x[1][0] == 'attr':
-                    x = x[1][1]
-                    while x[0] == 'call' and (T.dotted(x[1]) or '') in ('np.asarray', 'np.array') and x[2]:
-                        x = x[2][0]
+                changed = True
+                while changed:
+                    changed = False
+                    if x[0] == 'call' and (T.dotted(x[1]) or '') in conv and x[2]:
+                        x, changed = x[2][0], True
+                    elif x[0] == 'call' and T.call_name(x) == 'reshape' and x[1][0] == 'attr' and (T.dotted(x[1]) or '') not in conv:
+                        x, changed = x[1][1], True
                 if not popped(x, key):
                     return False
             return True
@@ -181,15 +183,28 @@ def rule_json(ctx):
         uses_shape = any(popped(x, 'shape') for x in T.subterms(a0)) or any(popped(x, 'shape') for e in p.calls('reshape') for x in T.subterms(e.a))
         # ... for every shape: the reshape may be conditioned on values / shape being present, not on what the shape contains
         cond_bad = None
+
+        def only_when_needed(a, pol):
+            # `if <stored shape> != <shape the values have now>: reshape` - skipped exactly when it would change nothing
+            if not (a[0] == 'cmp' and a[1] in ('==', '!=') and (pol is False if a[1] == '==' else pol is True)):
+                return False
+            sides = (a[2], a[3])
+            has_stored = [any(popped(x, 'shape') for x in T.subterms(s_)) for s_ in sides]
+            has_current = [any(x[0] == 'attr' and x[2] == 'shape' for x in T.subterms(s_)) for s_ in sides]
+            return (has_stored[0] and has_current[1] and not has_stored[1]) or (has_stored[1] and has_current[0] and not has_stored[0])
         for e in p.calls('reshape'):
             for a, pol in e.guards:
-                if any(popped(x, 'shape') for x in T.subterms(a)) and not (a[0] == 'cmp' and a[1] == 'is' and a[3] == T.CONST_NONE):
+                if any(popped(x, 'shape') or popped(x, 'values') for x in T.subterms(a)) and not (a[0] == 'cmp' and a[1] == 'is' and a[3] == T.CONST_NONE) and not only_when_needed(a, pol):
                     cond_bad = a
         if cond_bad is None:
             evf = run(ctx, r, mode='fork')
             for q in evf.paths:
                 for e in q.calls('reshape'):
                     for a, pol in e.guards:
+                        if only_when_needed(a, pol):
+                            continue
+                        if any(popped(x, 'values') for x in T.subterms(a)) and not (a[0] == 'cmp' and a[1] == 'is' and a[3] == T.CONST_NONE):
+                            cond_bad = a       # (what the nested lists look like - their depth, their length - must not decide whether the stored shape is used)
                         if any(popped(x, 'shape') for x in T.subterms(a)) and not (a[0] == 'cmp' and a[1] == 'is' and a[3] == T.CONST_NONE) and a[0] not in ('call',) \
                                 or (a[0] == 'cmp' and any(x[0] == 'sub' and any(popped(y, 'shape') for y in T.subterms(x[1])) for x in T.subterms(a))):
                             cond_bad = a
